@@ -7,3 +7,8 @@ package string_helper
 //@ func StringArrayContains
 //@ ensures result <==> (exists i int :: 0 <= i && i < len(s) && s[i] == searchterm)
 //@ loop 1 invariant forall j int :: 0 <= j && j < #i ==> s[j] != searchterm
+
+// word table: ordered by the word itself (unique keys: a total order, hence a reproducible listing)
+//@ closure SortWord$1
+//@ requires 0 <= i && i < len(*pl)
+//@ ensures result == (*pl)[i].Key
